@@ -110,7 +110,7 @@ class SymKit(KitBase):
             self.ctx.assume(t <= hi)
         return t
 
-    def real(self, name, lo=None, hi=None, nonzero=False, positive=False):
+    def real(self, name, lo=None, hi=None, nonzero=False, positive=False, sample=None):
         t = z3.Real(name)
         self.inputs[name] = ("real", lo, hi, nonzero, positive)
         if lo is not None:
@@ -228,6 +228,52 @@ class SymKit(KitBase):
     def fresh_int(self, name):
         return z3.Int(self.ctx.fresh_name(name))
 
+    def branch(self, cond):
+        """Case split inside a contract (explores both sides)."""
+        return self.ctx.branch(cond) if isinstance(cond, z3.ExprRef) else bool(cond)
+
+    def capture(self, owner, name, thunk):
+        """Run thunk(); calls of the real function owner.name are intercepted and recorded (not executed)."""
+        from .interp import _MISSING
+        target = resolve_attr(owner, name)
+        calls = []
+
+        def hook(I, fn, args, kwargs, node):
+            if fn is target:
+                calls.append(([unwrap(a) for a in args], {k: unwrap(v) for k, v in kwargs.items()}))
+                return None
+            return _MISSING
+        self.I.call_hooks.append(hook)
+        try:
+            thunk()
+        finally:
+            self.I.call_hooks.remove(hook)
+        return calls
+
+    # real functions (same symbols as the library models)
+    def log(self, x):
+        return unwrap(self.lib.m_log(self.I, wrap(x), None))
+
+    def exp(self, x):
+        return unwrap(self.lib.m_exp(self.I, wrap(x), None))
+
+    def sqrt(self, x):
+        return unwrap(self.lib.m_sqrt(self.I, wrap(x), None))
+
+    def pow(self, x, y):
+        return unwrap(self.lib.power(self.I, wrap(x), wrap(y), None))
+
+    def scalar_array(self, x):
+        """A numpy array whose generic element is x (element-wise code is analysed on the generic element)."""
+        self.ctx.note_assumption("numpy element-wise arithmetic acts on each element independently (a scalar stands for the generic array element)")
+        return x
+
+    def elem(self, a):
+        return a
+
+    def real_eq(self, a, b):
+        return a == b
+
     def str_eq(self, a, b):
         from . import strings as STR
         r = STR.eq(self.I, wrap(a), wrap(b), None) if not (isinstance(a, str) and isinstance(b, str)) else a == b
@@ -290,10 +336,13 @@ class ConcKit(KitBase):
         self.used[name] = v
         return v
 
-    def real(self, name, lo=None, hi=None, nonzero=False, positive=False):
+    def real(self, name, lo=None, hi=None, nonzero=False, positive=False, sample=None):
+        """`sample` only narrows the random draws of the native cross-check (float conditioning); it is not a precondition."""
         self.inputs[name] = ("real",)
         if name in self.values:
             v = self.values[name]
+        elif self.rng is not None and sample is not None:
+            v = fractions.Fraction(self.rng.randint(int(sample[0] * 1000), int(sample[1] * 1000)), 1000)
         elif self.rng is not None:
             v = fractions.Fraction(self.rng.randint(-40, 40), self.rng.choice([1, 2, 4, 5, 8]))
             if positive:
@@ -393,6 +442,50 @@ class ConcKit(KitBase):
     def index(self, v, i):
         return v[i]
 
+    def capture(self, owner, name, thunk):
+        calls = []
+        orig = owner.__dict__[name]
+
+        def recorder(*args, **kwargs):
+            calls.append((list(args), kwargs))
+            return None
+        setattr(owner, name, recorder)
+        try:
+            thunk()
+        finally:
+            setattr(owner, name, orig)
+        return calls
+
+    def log(self, x):
+        import math
+        return math.log(x)
+
+    def exp(self, x):
+        import math
+        return math.exp(x)
+
+    def sqrt(self, x):
+        import math
+        return math.sqrt(x)
+
+    def pow(self, x, y):
+        return x ** y
+
+    def scalar_array(self, x):
+        import numpy as np
+        return np.array([[x]], dtype=float)
+
+    def elem(self, a):
+        return float(a[0, 0]) if hasattr(a, "shape") and a.shape == (1, 1) else float(a)
+
+    def real_eq(self, a, b):
+        """Floating point: equality up to relative 1e-7 (rounding is outside the real-arithmetic abstraction)."""
+        a, b = float(a), float(b)
+        return abs(a - b) <= 1e-7 * max(1.0, abs(a), abs(b))
+
+    def branch(self, cond):
+        return bool(cond)
+
     def str_eq(self, a, b):
         return a == b
 
@@ -401,6 +494,13 @@ class ConcKit(KitBase):
         lits = template.split("{}")
         m = _re.fullmatch("(-?\\d+)".join(_re.escape(x) for x in lits), s)
         return [int(g) for g in m.groups()] if m else None
+
+
+def resolve_attr(owner, name):
+    raw = owner.__dict__[name]
+    if isinstance(raw, (staticmethod, classmethod)):
+        return raw.__func__
+    return raw
 
 
 def resolve_target(target):
